@@ -158,14 +158,19 @@ pub fn generate(seed: u64, n: usize, thorough: bool) -> Cases {
         let (btext, bkind) = BINDINGS[bi];
         let (utext, ukind) = USES[ui];
         let use_src = utext.replace("NAME", name);
+        // half of the programs hold the same use twice: once where the name is the library's and once where it is re-bound
+        // (an answer remembered from one of them must not decide the other)
+        let twice = rng.chance(1, 2);
+        let prefix = if twice { use_src.clone() } else { String::new() };
         // inside: the use sits in the BODY position
-        let inside = btext.replace("NAME", name).replace("BODY", &use_src);
-        let use_off_inside = btext.replace("NAME", name).find("BODY").unwrap();
+        let inside = format!("{}{}", prefix, btext.replace("NAME", name).replace("BODY", &use_src));
+        let use_off_inside = prefix.len() + btext.replace("NAME", name).find("BODY").unwrap();
         // outside: the binding is closed in a do-block (or ends by itself), the use follows it
+        let body_in_closed = if twice { use_src.as_str() } else { "" };
         let closed = if btext.ends_with("BODY") {
-            format!("do\n{}end\n", btext.replace("NAME", name).replace("BODY", ""))
+            format!("do\n{}end\n", btext.replace("NAME", name).replace("BODY", body_in_closed))
         } else {
-            btext.replace("NAME", name).replace("BODY", "")
+            btext.replace("NAME", name).replace("BODY", body_in_closed)
         };
         let outside = format!("{}{}", closed, use_src);
         let baseline = format!("{}{}", " ".repeat(closed.len()).replace(' ', " "), use_src);
@@ -188,6 +193,7 @@ pub fn generate(seed: u64, n: usize, thorough: bool) -> Cases {
         let d_base: Vec<&CheckerDiagnostic> = ds_base.iter().filter(|d| in_use(d, closed.len(), use_src.len())).collect();
         // byte of the root identifier of the (first) use, for the model's gate
         let root_in = use_off_inside + use_src.find(name).unwrap();
+        let ukind = if twice { format!("{ukind}+twice") } else { ukind.to_string() };
         let root_out = closed.len() + use_src.find(name).unwrap();
         let (c_in, c_out) = match (astdump::chunk(&ast_in), astdump::chunk(&ast_out)) { (Some(a), Some(b)) => (a, b), _ => continue };
         cases.push(
